@@ -365,6 +365,62 @@ def check_time_claims(chk, prog, env, model):
                                 'per-token trees are deep copies', n, bad, floor=16)
 
 
+def check_isolation(chk, prog, env, model, rulename='C10.isolation'):
+    """the token handed to the generate callback must not share a mutable JSON node with the builder's maps: the per-token trees are
+    deep copies, or shallow copies while no in-place JSON mutator is reachable from generate and the set calls (shared with C15: a set
+    on the token must not write through into the builder's map)"""
+    unit = T.VARIANT_UNIT['builder']
+    prog.func(unit, 'jwt_builder_generate')
+    copies = []
+
+    class R(H.CallbackRule):
+        alloc_may_fail = False
+
+        def keep_event(self, ev):
+            return False
+
+        def on_call(self, it, st, name, args, node):
+            if name in ('json_deep_copy', 'json_copy', 'json_incref'):
+                copies.append((name, args[0]))
+    hooks = H.std_hooks(env, extra={'jwt_claim_set': lambda it, st, a, nd: [(st, Int(0))],
+                                    'jwt_head_setup': lambda it, st, a, nd: [(st, Int(0))],
+                                    'jwt_encode_str': lambda it, st, a, nd: [(st, Term(('token',), ptr=True))]})
+    it = Interp(prog, unit, model=model, rule=R(), hooks=hooks)
+    st = State()
+    o = H.common_obj(st, 'builder', False)
+    H.set_cb(st, o, True)
+    H.set_key(st, o, env, 'none')
+    st.mem[(o, 'c.claims')] = Int(0)
+    st.mem[(o, 'c.headers')] = Ref(('obj', 'bhdrs'))
+    st.mem[(o, 'c.payload')] = Ref(('obj', 'bclms'))
+    H.bind_provider(st, 'openssl')
+    res = it.run('jwt_builder_generate', [Ref(o)], st)
+    if not res:
+        raise AnalysisBroken('jwt_builder_generate produced no outcome for the isolation rule')
+    n = 0
+    bad = 0
+    srcs = {vkey(a): nm for nm, a in copies}
+    for fld, obj in (('headers', 'bhdrs'), ('claims', 'bclms')):
+        n += 1
+        nm = srcs.get(vkey(Ref(('obj', obj))))
+        if nm == 'json_deep_copy':
+            continue
+        inplace = None
+        if nm == 'json_copy':
+            eff = effects.Effects(prog)
+            roots = [eff.find('jwt_builder_generate', unit), eff.find('jwt_claim_set'), eff.find('jwt_header_set')]
+            seen, parent = eff.reachable(roots)
+            inplace = sorted(k[1] for k in seen if k not in eff.funcs and k[1] in INPLACE)
+            if not inplace:
+                continue
+        bad += 1
+        chk.add(Finding(rulename, 'libjwt/jwt-common.c', 'jwt_builder_generate', 'copy[%s]' % fld,
+                        'the per-token %s are obtained by %s of the builder\'s tree%s: a set on the token handed to the callback writes '
+                        'through into the builder\'s own map' % (fld, nm or 'no copy at all',
+                                                              '' if not inplace else ' while in-place JSON mutators %s are reachable' % inplace)))
+    chk.rule(rulename, 'token and builder share no mutable JSON node (deep copies, or shallow ones with no in-place mutator reachable)', n, bad, floor=2)
+
+
 def check_offsets(chk, prog, env, model):
     unit = T.VARIANT_UNIT['builder']
     n = 0
